@@ -101,6 +101,23 @@ class Strings(Contract):
             chk('render_bin_prefix', x.bin(prefix='0b') == spec_bin(c, n, None, '0b') and x.bin(frac_dot=True, prefix=True) == spec_bin(c, n, f, '0b'), [c, x.bin(prefix='0b')])
             h = x.hex()
             chk('render_hex' + ('_wide' if wide else ''), h == spec_hex(c, n), [c, h])
+            # the selected prefix: short form 'b', and prefixes selected through the configuration
+            chk('render_bin_prefix', x.bin(prefix='b') == spec_bin(c, n, None, 'b'), [c, 'b', x.bin(prefix='b')])
+            xc = Fxp(c, s, n, f, raw=True, bin_prefix='b')
+            chk('render_bin_prefix', xc.bin() == spec_bin(c, n, None, 'b'), [c, 'config b', xc.bin()])
+            try:
+                hc = xc.hex()
+            except Exception as e:
+                hc = 'raised %s' % type(e).__name__
+            chk('render_hex_any_bin_prefix', hc == spec_hex(c, n), [c, 'hex() with config.bin_prefix=b', hc])
+            if n >= 2:
+                for text, kw in ((x.bin(prefix='b'), {}), (xc.bin(), {}), (x.bin(prefix='b'), {'raw': True})):
+                    if kw or n <= 53:
+                        try:
+                            yv = int(Fxp(text, s, n, f, **kw).val)
+                        except Exception as e:
+                            yv = 'raised %s' % type(e).__name__
+                        chk('parse_short_prefix', yv == c, [c, text, kw, yv])
             for base in (2, 8, 10, 16):
                 chk('render_base', x.base_repr(base) == spec_base(c, base), [c, base, x.base_repr(base)])
             if n >= 2:
@@ -156,8 +173,10 @@ class Strings(Contract):
             return {}
         n = cfg['n_word']
         wide = n >= 64
-        names = ['stored', 'render_bin' + ('_wide' if wide else ''), 'render_bin_dot', 'render_bin_prefix', 'render_hex' + ('_wide' if wide else ''), 'render_base']
+        names = ['stored', 'render_bin' + ('_wide' if wide else ''), 'render_bin_dot', 'render_bin_prefix', 'render_hex' + ('_wide' if wide else ''), 'render_base',
+                 'render_hex_any_bin_prefix']
         if n >= 2:
+            names += ['parse_short_prefix']
             names += ['parse_raw' + ('_wide' if wide else ''), 'parse_raw_set_val', 'parse_raw_from_bin', 'array_render', 'array2d_render', 'array_parse', 'input_unchanged']
             if n <= 53:
                 names += ['parse_value_ctor', 'parse_value_call', 'parse_value_from_bin', 'parse_value_from_bin_fn', 'array_parse_value', 'array2d_parse_value']
